@@ -404,6 +404,7 @@ func runC03(c *Ctx) {
 		c.Check(fname(pvmFn)+"#quorum-memory-withdrawn-with-the-weight", pvmFn.Pos(), ok, ifelse(ok, "in the double-voter case the recorded quorum is deleted when the remaining tally is below the threshold", "when a double voter's weight is taken out of its first block nothing withdraws the quorum recorded for that block: precommits 700+400+300 reach 1400 ≥ 1370, the 300 equivocate and X drops to 1100, certificate votes reach their quorum and judgeVoteCount(Certificate) commits on the remembered precommit quorum — the CommitEvent's precommit set weighs 1100"))
 	}
 	c03RoundE(c, c.W)
+	c03RoundF(c, c.W)
 }
 
 func c03Q8(c *Ctx, w *World, pvm *ssa.Function, jvcObj *types.Func) {
@@ -1255,6 +1256,116 @@ func isFalseStore(in ssa.Instruction) bool {
 }
 
 // c03RoundE: Q14 (a recycled vote container starts empty for every kind) and Q15 (a BLS vote counts only verified).
+func c03RoundF(c *Ctx, w *World) {
+	staT := w.Named(uconPkg, "VoteSta")
+	st := w.Struct(uconPkg, "VoteSta")
+
+	c.Rule("C03.Q16", "EXHAUSTIVE", "a recycled vote container starts empty in every table: VoteSta.clear gives each map field of VoteSta (votes per hash, tally per hash, per-sender records) a fresh map or empties it entry by entry — a table left out (the tally) survives from round index i into i+4, where quorum−k fresh prevotes then escalate a block that had k votes four indexes earlier, and the commit carries only the fresh votes")
+	c.Min(1)
+	{
+		cl := w.Fn(uconPkg, "VoteSta", "clear")
+		c.sawFunc(fname(cl))
+		handled := map[string]bool{}
+		for _, in := range allInstrs(cl) {
+			switch x := in.(type) {
+			case *ssa.Store:
+				if fa, ok := x.Addr.(*ssa.FieldAddr); ok && types.Identical(deref(fa.X.Type()), staT) {
+					if _, isMk := stripConvNoBind(x.Val).(*ssa.MakeMap); isMk {
+						if f := fieldOfAddr(fa); f != nil {
+							handled[f.Name()] = true
+						}
+					}
+				}
+			case *ssa.Call:
+				if b, ok := x.Call.Value.(*ssa.Builtin); ok && b.Name() == "delete" && inLoopBlock(x.Block()) {
+					if f, base := loadedField(stripConvNoBind(x.Call.Args[0])); f != nil && base != nil && types.Identical(deref(base.Type()), staT) {
+						handled[f.Name()] = true
+					}
+				}
+			}
+		}
+		var missing []string
+		n := 0
+		for i := 0; i < st.NumFields(); i++ {
+			f := st.Field(i)
+			if _, isMap := f.Type().Underlying().(*types.Map); isMap {
+				n++
+				if !handled[f.Name()] {
+					missing = append(missing, f.Name())
+				}
+			}
+		}
+		c.sites++
+		c.Check(fname(cl)+"#empties-every-table", cl.Pos(), n > 0 && len(missing) == 0, ifelse(n > 0 && len(missing) == 0, fmt.Sprintf("all %d tables are replaced or emptied", n), "clear leaves "+strings.Join(missing, ", ")+" as it was: the recycled container starts a new round index with old entries in that table"))
+	}
+
+	c.Rule("C03.Q17", "OWNERSHIP", "the vote set attached to a commit is the set that reached the quorum: VoteSta.getVotesInfo hands out a map of its own (a new map filled by copying), never the live per-hash table — the live table loses an equivocator's vote (addrVoteInfo) and gains later votes (newVote) between the moment Voter.commit posts the event and the moment Server.commit packs the votes, and a header sealed with the shrunken set is below the quorum for every verifier")
+	c.Min(1)
+	{
+		gv := w.Fn(uconPkg, "VoteSta", "getVotesInfo")
+		c.sawFunc(fname(gv))
+		bad := ""
+		n := 0
+		for _, b := range gv.Blocks {
+			ret, isRet := b.Instrs[len(b.Instrs)-1].(*ssa.Return)
+			if !isRet || len(ret.Results) == 0 || b == gv.Recover {
+				continue
+			}
+			n++
+			seen := map[ssa.Value]bool{}
+			var fresh func(v ssa.Value) bool
+			fresh = func(v ssa.Value) bool {
+				v = stripConvNoBind(v)
+				if seen[v] {
+					return true
+				}
+				seen[v] = true
+				switch x := v.(type) {
+				case *ssa.MakeMap:
+					return true
+				case *ssa.Phi:
+					for _, e := range x.Edges {
+						if !fresh(e) {
+							return false
+						}
+					}
+					return true
+				case *ssa.Call:
+					if g := x.Call.StaticCallee(); g != nil && g.Blocks != nil && g.Pkg == gv.Pkg {
+						// a constructor: all its returns are new maps
+						okAll := true
+						for _, gb := range g.Blocks {
+							if gr, isR := gb.Instrs[len(gb.Instrs)-1].(*ssa.Return); isR && len(gr.Results) > 0 {
+								if _, isMk := stripConvNoBind(gr.Results[0]).(*ssa.MakeMap); !isMk {
+									okAll = false
+								}
+							}
+						}
+						return okAll
+					}
+				}
+				return false
+			}
+			rv := ret.Results[0]
+			// a result spilled to a variable because of the deferred unlock
+			if u, isU := rv.(*ssa.UnOp); isU && u.Op == token.MUL {
+				if al, isAl := u.X.(*ssa.Alloc); isAl {
+					for _, in := range b.Instrs {
+						if stv, isSt := in.(*ssa.Store); isSt && stv.Addr == ssa.Value(al) {
+							rv = stv.Val
+						}
+					}
+				}
+			}
+			if !fresh(rv) {
+				bad = w.Pos(ret.Pos())
+			}
+		}
+		c.sites++
+		c.Check(fname(gv)+"#hands-out-a-copy", gv.Pos(), bad == "" && n > 0, ifelse(bad == "" && n > 0, "every return hands out a new map", "the return at "+bad+" hands out the live per-hash vote table: the vote set of an announced commit changes when a counted sender equivocates afterwards"))
+	}
+}
+
 func c03RoundE(c *Ctx, w *World) {
 	c.Rule("C03.Q14", "EXHAUSTIVE", "quorums are counted per round index: the vote containers are recycled (VotesWrapperList keeps MaxVoteCacheCount of them), and clearVotesInfo, which re-targets one to a new (round, index), reads every *VoteSta field of VotesManager and clears it — a kind left out keeps the tallies and per-sender records of index i in index i+4, old weight counts towards the new quorum and the packed vote set mixes signatures of two indexes")
 	c.Min(1)
